@@ -3,6 +3,7 @@ package props
 import (
 	"fmt"
 	"go/types"
+	"regexp"
 	"sort"
 	"strings"
 
@@ -112,11 +113,11 @@ func c02PolicyCache(c *eng.Ctx) {
 		if !c.Floor(f, "policy storage write", len(writes), 1) {
 			continue
 		}
-		cache := cacheCalls(f, s.cache)
+		noCache := c02NoCacheEdges(c, f) // no cache configured: nothing to invalidate
+		cache := c02CacheSites(f, s.cache, noCache)
 		// every nil-error return reachable after a storage write passes a cache update
 		for _, w := range writes {
 			rets := eng.SuccessReturns(f, f.Signature.Results().Len()-1)
-			noCache := eng.CondEdges(f, `tokenPoliciesLRU == nil$`, true) // no cache configured: nothing to invalidate
 			if h := eng.Reach(eng.Query{Fn: f, StartAfter: w, Barriers: cache, Blocked: noCache, Target: eng.IsTarget(rets)}); h != nil {
 				fact := "a nil-error return is reachable after the storage write without updating the policy cache: the next request would still see the old policy"
 				if len(cache) == 0 {
@@ -161,6 +162,31 @@ func c02PolicyCacheKeys(c *eng.Ctx) {
 				}
 				cc := cl.Common()
 				callee := cc.StaticCallee()
+				if callee == nil && !cc.IsInvoke() && len(cc.Args) >= 1 {
+					// a keyed operation called through a bound method value (`rm := cache.Remove; rm(key)`), possibly
+					// one of several values of a function variable: the key is the first argument of the call
+					vals := []ssa.Value{cc.Value}
+					if phi, ok := cc.Value.(*ssa.Phi); ok {
+						vals = phi.Edges
+					}
+					for _, fvv := range vals {
+						bf, mc := nfFuncValue(fvv)
+						if bf == nil || mc == nil || !nfIsBoundWrapper(bf) || len(mc.Bindings) != 1 || !types.Identical(mc.Bindings[0].Type(), fv.Type()) {
+							continue
+						}
+						name := strings.TrimSuffix(bf.Name(), "$bound")
+						if !keyed[name] {
+							continue
+						}
+						n++
+						if name != "Get" && name != "Contains" && name != "Peek" {
+							nWrite++
+						}
+						c.Prov(eng.TopFunc(fn), "key of policy cache "+name, cl, cc.Args[0], `^call:policy\.\(\*Store\)\.cacheKey$`)
+						break
+					}
+					continue
+				}
 				if callee == nil || cc.IsInvoke() || len(cc.Args) < 2 || !keyed[callee.Name()] || !types.Identical(cc.Args[0].Type(), fv.Type()) {
 					continue
 				}
@@ -212,6 +238,82 @@ func cacheCalls(f *ssa.Function, pat string) []ssa.Instruction {
 		n := eng.CalleeName(cl.Common())
 		if strings.Contains(n, "lru") || strings.Contains(n, "LRU") || strings.Contains(n, "Cache") || strings.Contains(n, "cache") {
 			out = append(out, cl)
+		}
+	}
+	return out
+}
+
+// c02NoCacheEdges: the edges on which Store.tokenPoliciesLRU — read directly or
+// through a local alias — is nil.
+func c02NoCacheEdges(c *eng.Ctx, f *ssa.Function) []eng.Edge {
+	fv := c.P.Field("policy.Store.tokenPoliciesLRU")
+	out := c04FieldCmpEdges(f, fv, nil, "nil", true)
+	seen := map[eng.Edge]bool{}
+	for _, e := range out {
+		seen[e] = true
+	}
+	for _, e := range eng.CondEdges(f, `tokenPoliciesLRU == nil$`, true) {
+		if !seen[e] {
+			out = append(out, e)
+		}
+	}
+	return out
+}
+
+func c02IsCacheName(name string) bool {
+	return strings.Contains(name, "lru") || strings.Contains(name, "LRU") || strings.Contains(name, "Cache") || strings.Contains(name, "cache")
+}
+
+// c02CacheSites: the instructions of f at which a policy-cache operation
+// matching pat has certainly happened: a direct call, a call through a bound
+// method value, a closure / same-package helper that performs it on every path
+// (props/c04follow.go), or a call through a function VARIABLE every possible
+// value of which either is such a method value or is assigned only on an edge
+// on which no cache is configured (`evict := noop; if cache != nil { evict = cache.Remove }`).
+func c02CacheSites(f *ssa.Function, pat string, noCache []eng.Edge) []ssa.Instruction {
+	re := regexp.MustCompile(pat)
+	is := func(name string) bool { return re.MatchString(name) && c02IsCacheName(name) }
+	var out []ssa.Instruction
+	seen := map[ssa.Instruction]bool{}
+	add := func(in ssa.Instruction) {
+		if !seen[in] {
+			seen[in] = true
+			out = append(out, in)
+		}
+	}
+	for _, st := range nfMust(f, nil, func(nc nfCall, _ *nfFrame) bool { return is(nc.Name) }, 2) {
+		add(st.At)
+	}
+	exempt := map[eng.Edge]bool{}
+	for _, e := range noCache {
+		exempt[e] = true
+	}
+	for _, ci := range nfAllCalls(f) {
+		phi, ok := ci.Common().Value.(*ssa.Phi)
+		if !ok || ci.Common().IsInvoke() {
+			continue
+		}
+		all, some := true, false
+		for i, e := range phi.Edges {
+			fn, mc := nfFuncValue(e)
+			if fn != nil && mc != nil && nfIsBoundWrapper(fn) && is(strings.TrimSuffix(eng.FuncName(fn), "$bound")) {
+				some = true
+				continue
+			}
+			// any other value must have been chosen on a no-cache edge
+			pb := phi.Block().Preds[i]
+			okEdge := false
+			for si, sb := range pb.Succs {
+				if sb == phi.Block() && exempt[eng.Edge{From: pb, Succ: si}] {
+					okEdge = true
+				}
+			}
+			if !okEdge {
+				all = false
+			}
+		}
+		if all && some {
+			add(ci)
 		}
 	}
 	return out
